@@ -11,7 +11,7 @@ CLAIMED = {
                      'Bounded: Importer.run as a whole against the reference spine-path model on generated scores.', '4.2'),
     'C03': ('other', MIXED + STEP + 'Proved: token export functions and tokenizers (cell text), the listener exit functions (barlines lose only the number, notes / rests keep duration marks, pitch, accidental, signifiers, verbatim non-note cells), '
                      'append_row, export_token, the row loop step of export_string (row = projection of the stage, placeholder-only rows dropped), empty_row. Bounded: cell-for-cell comparison of the default export with the generator\'s own description of every cell.', '4.3'),
-    'C04': ('other', MIXED + 'Proved: the export of every token class, five of the six tokenizers (Bekern\'s note-by-note string surgery is outside the subset: bounded stand-in), TokenizerFactory, Encoding.prefix, '
+    'C04': ('other', MIXED + 'Proved: the export of every token class, all six tokenizers (Bekern\'s note-by-note string surgery: notes, rests, compound tokens, chords of up to three notes; larger chords bounded), TokenizerFactory, Encoding.prefix, '
                              'HeaderTokenGenerator, export_token, the two-call history lemma of Exporter.export_token. Bounded: the six encodings of whole documents; one Exporter object serving several requests.', '4.4'),
     'C05': ('other', MIXED + STEP + 'Proved: valid() == Clo(I) \\ Clo(E) for symbolic sets, parse_options_to_ExportOptions, append_row (spine gate, category gate, placeholder), export_token (+ history lemma), the filter-is-deletion lemma for notes, '
                              'the row loop step of export_string. Bounded: whole-document exports under include / exclude selections against a cell-level oracle.', '4.5'),
